@@ -24,6 +24,9 @@ func pathD(v ssa.Value, d int) string {
 	}
 	switch x := v.(type) {
 	case *ssa.Parameter:
+		if fv, ok := forwardedParam[x]; ok {
+			return pathD(fv, d+1)
+		}
 		return pname(x)
 	case *ssa.FreeVar:
 		return canonLocalName(x.Parent(), x.Name())
